@@ -216,7 +216,9 @@ func ExplainGpos(fontInfo *sfnt.Font) []string {
 
 			case *gtab.Gpos2_2:
 				checkType(2)
-				ee.w.WriteString("\n\t")
+				if i == 0 {
+					ee.w.WriteString("\n\t")
+				}
 				ee.w.WriteRune('/')
 				ee.writeGlyphList(l.Cov.Glyphs())
 				ee.w.WriteRune('/')
@@ -271,9 +273,14 @@ func ExplainGpos(fontInfo *sfnt.Font) []string {
 
 			case *gtab.Gpos4_1:
 				checkType(4)
+				sep := "\n\t"
+				if i > 0 {
+					sep = "" // we are already on a new line after "||"
+				}
 				markGlyphs := l.MarkCov.Glyphs()
 				for i, gid := range markGlyphs {
-					ee.w.WriteString("\n\tmark ")
+					ee.w.WriteString(sep + "mark ")
+					sep = "\n\t"
 					ee.writeGlyph(gid)
 					ee.w.WriteRune(':')
 					rec := l.MarkArray[i]
@@ -283,7 +290,8 @@ func ExplainGpos(fontInfo *sfnt.Font) []string {
 
 				baseGlyphs := l.BaseCov.Glyphs()
 				for i, gid := range baseGlyphs {
-					ee.w.WriteString("\n\tbase ")
+					ee.w.WriteString(sep + "base ")
+					sep = "\n\t"
 					ee.writeGlyph(gid)
 					ee.w.WriteRune(':')
 					anchors := l.BaseArray[i]
